@@ -1181,6 +1181,11 @@ class PDFCIDFont(PDFFont):
         if "FontFile2" in descriptor:
             self.fontfile = stream_value(descriptor.get("FontFile2"))
             ttf = TrueTypeFont(self.basefont, BytesIO(self.fontfile.get_data()))
+        # CIDFontType2: the glyph index of a CID, two bytes each (None: identity)
+        self.cidtogidmap: Optional[bytes] = None
+        cidtogidmap = resolve1(spec.get("CIDToGIDMap"))
+        if isinstance(cidtogidmap, PDFStream):
+            self.cidtogidmap = cidtogidmap.get_data()
         self.unicode_map: Optional[UnicodeMap] = None
         # What applies to the codes that a ToUnicode stream does not map.
         self.fallback_unicode_map: Optional[UnicodeMap] = None
@@ -1233,9 +1238,19 @@ class PDFCIDFont(PDFFont):
         if self.cidcoding in ("Adobe-Identity", "Adobe-UCS"):
             if ttf:
                 try:
-                    return ttf.create_unicode_map()
+                    by_gid = ttf.create_unicode_map()
                 except TrueTypeFont.CMapNotFound:
-                    pass
+                    return None
+                if self.cidtogidmap is None:
+                    return by_gid
+                # the font's cmap gives the character of a glyph index
+                by_cid = FileUnicodeMap()
+                data = self.cidtogidmap
+                for cid in range(len(data) // 2):
+                    gid = (data[2 * cid] << 8) | data[2 * cid + 1]
+                    if gid in by_gid.cid2unichr:
+                        by_cid.cid2unichr[cid] = by_gid.cid2unichr[gid]
+                return by_cid
         else:
             try:
                 return CMapDB.get_unicode_map(self.cidcoding, self.cmap.is_vertical())
